@@ -171,7 +171,7 @@ func firstShard(dir string) string {
 
 func TestVerif_C38(t *testing.T) {
 	rec := kit.Open(t, "C38",
-		"a generated repository (documents of 5-400 bytes, some with many distinct trigrams, names matching or not matching large-file patterns) indexed once with options A; then options / description B differing from A in exactly one aspect (SizeMax, TrigramMax, LargeFiles, ShardMax, Parallelism, a branch version, the branch set, Metadata, RawConfig, URL or a URL template, or nothing); IndexState / IncrementalSkipIndexing for B over A's index is judged against ground truth obtained by indexing with B from scratch and comparing every document's name, content and branches; non-trivial = something differs between A and B; distinct by hash",
+		"a generated repository (documents of 5-400 bytes, some with many distinct trigrams, names matching or not matching large-file patterns) indexed once with options A; then options / description B differing from A in exactly one aspect (SizeMax, TrigramMax, LargeFiles, ShardMax, Parallelism, a branch version (possibly empty), the branch set, a renamed branch, Metadata, RawConfig, URL or a URL template, or nothing); IndexState / IncrementalSkipIndexing for B over A's index is judged against ground truth obtained by indexing with B from scratch and comparing every document's name, content and branches; non-trivial = something differs between A and B; distinct by hash",
 		"SetDefaults is applied before IndexState, as every caller does",
 		"a metadata-only change must be classified meta-mismatch (and MergeMutable must then bring the stored description to the new values) or cause a re-index; it must not be classified equal",
 		"ctags is not installed, so symbol-affecting options are not exercised (DisableCTags is constant)",
@@ -181,6 +181,10 @@ func TestVerif_C38(t *testing.T) {
 		r := kit.Repo{Name: "example.com/repo", ID: 7, Branches: []kit.Branch{{Name: "HEAD", Version: "aaaa"}, {Name: "dev", Version: "bbbb"}},
 			Metadata: map[string]string{"team": "alpha"}, RawConfig: map[string]string{"public": "1"}, URL: "http://example.com/repo",
 			FileURL: "http://example.com/repo/blob/{{.Version}}/{{.Path}}", LineFragment: "#L{{.LineNumber}}", CommitURL: "http://example.com/repo/commit/{{.Version}}"}
+		// versions may be empty (directory / archive style indexing without a commit)
+		for i := range r.Branches {
+			r.Branches[i].Version = kit.Pick(g, []string{"aaaa", "bbbb", "", ""}, "version")
+		}
 		nd := g.Int(2, 6, "ndocs")
 		for i := 0; i < nd; i++ {
 			name := kit.Pick(g, []string{"a.go", "b.big", "dir/c.txt", "d.big", "e.md", "f.go"}, "name") + fmt.Sprint(i)
@@ -212,7 +216,7 @@ func TestVerif_C38(t *testing.T) {
 		c.BRepo.Branches = append([]kit.Branch(nil), r.Branches...)
 		c.BRepo.Metadata = map[string]string{"team": "alpha"}
 		c.BRepo.RawConfig = map[string]string{"public": "1"}
-		c.Change = kit.Pick(g, []string{"SizeMax", "TrigramMax", "LargeFiles", "LargeFilesOrder", "ShardMax", "Parallelism", "BranchVersion", "BranchSet", "Metadata", "RawConfig", "URL", "FileURLTemplate", "none", "TrigramMax", "Metadata"}, "change")
+		c.Change = kit.Pick(g, []string{"SizeMax", "TrigramMax", "LargeFiles", "LargeFilesOrder", "ShardMax", "Parallelism", "BranchVersion", "BranchSet", "BranchRename", "BranchRename", "Metadata", "RawConfig", "URL", "FileURLTemplate", "none", "TrigramMax", "Metadata"}, "change")
 		other := func(cur int, vals []int) int {
 			for {
 				v := kit.Pick(g, vals, "other")
@@ -247,7 +251,30 @@ func TestVerif_C38(t *testing.T) {
 		case "Parallelism":
 			c.B.Parallelism = other(a.Parallelism, []int{1, 4})
 		case "BranchVersion":
-			c.BRepo.Branches[g.U(2, "whichb")].Version = "cccc"
+			wb := g.U(2, "whichb")
+			for {
+				v := kit.Pick(g, []string{"cccc", "", "aaaa", "bbbb"}, "newversion")
+				if v != c.BRepo.Branches[wb].Version {
+					c.BRepo.Branches[wb].Version = v
+					break
+				}
+			}
+		case "BranchRename":
+			// one branch is replaced by a differently named one at the same version
+			wb := g.U(2, "whichb")
+			old := c.BRepo.Branches[wb].Name
+			c.BRepo.Branches[wb].Name = kit.Pick(g, []string{"wip", "release", "main"}, "newname")
+			docs := append([]kit.Doc(nil), r.Docs...)
+			for i := range docs {
+				bs := append([]string(nil), docs[i].Branches...)
+				for j := range bs {
+					if bs[j] == old {
+						bs[j] = c.BRepo.Branches[wb].Name
+					}
+				}
+				docs[i].Branches = bs
+			}
+			c.BRepo.Docs = docs
 		case "BranchSet":
 			c.BRepo.Branches = c.BRepo.Branches[:1]
 			docs := append([]kit.Doc(nil), r.Docs...)
